@@ -178,10 +178,33 @@ def _evaluate(oid, obj, seed):
     return out
 
 
-def _cycle(oid, obj, fmt, tmp):
+_DECOYS = {}
+
+
+def _decoy(oid, seed):
+    """A different object of the same kind; it is written to and loaded from the SAME path first, so that the cycle of
+    the real object goes through 'overwrite an already loaded file' (a stale cache keyed by the path is then visible)."""
+    k = (oid, seed)
+    if k not in _DECOYS:
+        if oid.startswith("map:"):
+            from ciderpress.dft.transform_data import UMap
+
+            _DECOYS[k] = UMap(0, 0.123)
+        else:
+            _DECOYS[k] = _make(oid, seed + 17)
+    return _DECOYS[k]
+
+
+def _cycle(oid, obj, fmt, tmp, seed=0, decoy=True):
     """One save/load cycle. Returns the reloaded object, or raises."""
     import joblib
     import yaml
+
+    if decoy and fmt not in ("dict", "fl-dict", "to_dict", "as_dict"):
+        try:
+            _cycle(oid, _decoy(oid, seed), fmt, tmp, seed, decoy=False)
+        except NotImplementedError:
+            pass
 
     if oid.startswith("map:"):
         from ciderpress.dft.transform_data import FeatureList, FeatureNormalizer
@@ -266,7 +289,7 @@ def run_chain(case):
     with tempfile.TemporaryDirectory(prefix="c14-") as tmp:
         for depth, fmt in enumerate(chain):
             try:
-                new = _cycle(oid, obj, fmt, tmp)
+                new = _cycle(oid, obj, fmt, tmp, seed)
             except NotImplementedError:
                 unsupported = True
                 break
